@@ -93,7 +93,8 @@ package parquet
 //@   modifies m, HA(m.rowGroups), heap("sch.ColumnMetaData"), heap("map[string]sch.ColumnChunk"), wfault, snk, ser
 //@   ensures[C09] err == nil ==> (wfault ==> old(wfault))
 // the header that reaches the sink states the sizes and the count it was given; the chunk grows by header + page
-//@   ensures[C02] err == nil ==> snkPos == old(snkPos) + hdrLen && snkKept(old(snkPos)) && hdrLen >= 0
+//@   ensures[C02] snkPos >= old(snkPos) && snkKept(old(snkPos))
+//@   ensures[C02] err == nil ==> snkPos == old(snkPos) + hdrLen && hdrLen >= 0
 //@   ensures[C02] err == nil && i32(dataLen) && i32(compressedLen) && i32(count) ==> hdrComp == compressedLen && hdrUncomp == dataLen && hdrNV == count
 //@   ensures[C02] err == nil ==> #m.rowGroups >= 1 && lastCols(m) == old(lastCols(m)) && chunkGrew(lastCols(m), colKey(pth), dataLen + hdrLen, compressedLen + hdrLen, count)
 
@@ -105,7 +106,8 @@ package parquet
 //@   modifies meta, HA(meta.rowGroups), heap("sch.ColumnMetaData"), heap("map[string]sch.ColumnChunk"), wfault, snk, ser, relArr
 //@   ensures[C09] err == nil ==> (wfault ==> old(wfault))
 // one page: header then payload; sizes in the header and the chunk totals are those of the bytes written
-//@   ensures[C02] err == nil ==> snkPos >= old(snkPos) + hdrLen && snkKept(old(snkPos)) && #meta.rowGroups >= 1 && lastCols(meta) == old(lastCols(meta))
+//@   ensures[C02] snkPos >= old(snkPos) && snkKept(old(snkPos))
+//@   ensures[C02] err == nil ==> snkPos >= old(snkPos) + hdrLen && #meta.rowGroups >= 1 && lastCols(meta) == old(lastCols(meta))
 //@   ensures[C02] err == nil ==> chunkGrew(lastCols(meta), colKey(f.pth), #vals + hdrLen, snkPos - old(snkPos), count)
 //@   ensures[C02] err == nil && i32(#vals) && i32(count) && i32(snkPos - old(snkPos) - hdrLen) ==> hdrComp == snkPos - old(snkPos) - hdrLen && hdrUncomp == #vals && hdrNV == count
 //@   ensures[C02] err == nil && f.compression == 0 ==> snkPos == old(snkPos) + hdrLen + #vals
@@ -120,7 +122,8 @@ package parquet
 //@   ensures[C09] err == nil ==> (wfault ==> old(wfault))
 // one page: header then payload; the value count is the number of definition levels
 //@   requires[C02] count == #f.Defs
-//@   ensures[C02] err == nil ==> snkPos >= old(snkPos) + hdrLen && snkKept(old(snkPos)) && #meta.rowGroups >= 1 && lastCols(meta) == old(lastCols(meta))
+//@   ensures[C02] snkPos >= old(snkPos) && snkKept(old(snkPos))
+//@   ensures[C02] err == nil ==> snkPos >= old(snkPos) + hdrLen && #meta.rowGroups >= 1 && lastCols(meta) == old(lastCols(meta))
 //@   ensures[C02] err == nil ==> cComp(lastCols(meta), colKey(f.pth)) == old(cComp(lastCols(meta), colKey(f.pth))) + snkPos - old(snkPos) && cNV(lastCols(meta), colKey(f.pth)) == old(cNV(lastCols(meta), colKey(f.pth))) + #f.Defs
 //@   ensures[C02] err == nil ==> cUncomp(lastCols(meta), colKey(f.pth)) - old(cUncomp(lastCols(meta), colKey(f.pth))) - hdrLen >= #vals
 //@   ensures[C02] err == nil && i32(cUncomp(lastCols(meta), colKey(f.pth)) - old(cUncomp(lastCols(meta), colKey(f.pth))) - hdrLen) && i32(#f.Defs) && i32(snkPos - old(snkPos) - hdrLen) ==> hdrComp == snkPos - old(snkPos) - hdrLen && hdrUncomp == cUncomp(lastCols(meta), colKey(f.pth)) - old(cUncomp(lastCols(meta), colKey(f.pth))) - hdrLen && hdrNV == #f.Defs
